@@ -144,7 +144,7 @@ fn to_template(ast: &[Node]) -> String {
 }
 
 /// Reference rendering: lines of acceptable texts (alternatives only differ in centre rounding).
-fn reference(ast: &[Node], msg: &str, prefix: &str, pos: u64, len: u64) -> Vec<Vec<String>> {
+fn reference(ast: &[Node], msg: &str, prefix: &str, pos: u64, len: u64, tabw: usize) -> Vec<Vec<String>> {
     let mut lines: Vec<Vec<String>> = vec![vec![String::new()]];
     for n in ast {
         let alts: Vec<String> = match n {
@@ -157,7 +157,7 @@ fn reference(ast: &[Node], msg: &str, prefix: &str, pos: u64, len: u64) -> Vec<V
                 lines.push(vec![String::new()]);
                 continue;
             }
-            Node::BraceWs(c) => vec![format!("{{{}", if *c == '\t' { " ".repeat(8) } else { c.to_string() })],
+            Node::BraceWs(c) => vec![format!("{{{}", if *c == '\t' { " ".repeat(tabw) } else { c.to_string() })],
             Node::NL => {
                 lines.push(vec![String::new()]);
                 continue;
@@ -324,13 +324,24 @@ fn run_case(seed: u64, idx: u64) -> CaseOut {
     let pos = rng.range(0, 5000);
     let len = rng.range(0, 5000);
     let (m, p) = (msg.clone(), prefix.clone());
-    let r = render_with(TERM_WIDTH as u16, Some(len), style, move |pb| {
+    // the style reaches the bar freshly parsed, or as the bar's own style() given this template; the tab
+    // width is the default or one set on the bar (a literal TAB can only come from '{' + TAB)
+    let tabw = *rng.pick(&[8usize, 8, 8, 2, 4, 0]);
+    let restyle = rng.chance(1, 3);
+    let t2 = tmpl.clone();
+    let r = render_with(TERM_WIDTH as u16, Some(len), if restyle { ProgressStyle::default_bar() } else { style }, move |pb| {
+        if tabw != 8 {
+            pb.set_tab_width(tabw);
+        }
+        if restyle {
+            pb.set_style(pb.style().template(&t2).unwrap());
+        }
         pb.set_message(m);
         pb.set_prefix(p);
         pb.set_position(pos);
     });
-    let want = reference(&ast, &msg, &prefix, pos, len);
-    let w = J::obj().with("template", tmpl.clone()).with("msg", msg.clone()).with("prefix", prefix.clone()).with("pos", pos).with("len", len);
+    let want = reference(&ast, &msg, &prefix, pos, len, tabw);
+    let w = J::obj().with("template", tmpl.clone()).with("tab_width", tabw).with("installed_via", if restyle { "pb.style().template(..)" } else { "with_template" }).with("msg", msg.clone()).with("prefix", prefix.clone()).with("pos", pos).with("len", len);
     let brace_ws = ast.windows(2).any(|w| matches!((&w[0], &w[1]), (Node::Lit(_) | Node::Ph { .. }, Node::BraceWs(_))));
     let feat = if brace_ws { "text-before-brace-whitespace" } else if ast.iter().any(|n| matches!(n, Node::BraceWs(_))) { "brace-whitespace" } else { "grammar" };
     match r {
